@@ -117,6 +117,21 @@ CHECKS = {
         ],
         "trusted_extra": ["verif hook Transcoder.VerifTables / VerifRouteMatch (read-only dump of methods and REST routes)"],
     },
+    "C20": {
+        "module": "Vanguard.Props.C20", "namespace": "Vanguard.C20", "streams": ["schema"],
+        "partial": "proved: on every loading route the message type chosen for a method is over the declared descriptors, a resolver that "
+                   "does not know a name never fails registration, the fallback chain's algebra; the configuration model is route-free by "
+                   "construction. NOT modelled: protobuf-go (dynamic and generated messages of equal descriptors behave alike) and real "
+                   "proto/JSON codecs - route equivalence of the traffic is a metamorphic comparison on the implementation (seven routes, "
+                   "tables equal to the model's, same bytes at backend and client per request)",
+        "assumptions": [
+            "schemas: the repository's generated vanguard.test.v1 Library/Content services (google.api.http annotations, additional WithRules "
+            "bindings), reached through the verif-only package veriftest",
+            "proto bytes seen by the backend are compared after canonical re-encoding (field order in the proto wire format is not defined)",
+            "vanguardgrpc.NewTranscoder is compared at the level of the tables it builds (its handler is a grpc.Server that needs real HTTP/2)",
+        ],
+        "trusted_extra": ["verif hook package veriftest; hook Transcoder.VerifTables / VerifRouteMatch"],
+    },
     "C18": {
         "module": "Vanguard.Props.C18", "namespace": "Vanguard.C18", "streams": ["e2e"],
         "partial": "no I/O after return is observed by the harness (vanguard starts no goroutine), not modelled",
